@@ -13,7 +13,7 @@
 //!
 //!   --exhaustive K,B   every diagram with <= K spiders and 0..=B boundaries (Family enumeration)
 //!   --bb               additionally with one boundary-to-boundary wire
-//!   --stride n         keep every n-th enumerated diagram (offset = seed mod n)
+//!   --stride n         keep a pseudo-random 1/n of the enumerated diagrams (class = seed mod n)
 //!   --named            a fixed list of diagrams with non-trivial web spaces
 //!   --random N         seeded random diagrams, <= --maxsp (6) spiders, <= --maxb (3) boundaries
 //!   --maxbip M         skip/resample diagrams whose bipartite form has more than M spiders (12)
@@ -224,6 +224,15 @@ fn bip_size(a: &Value) -> usize {
     sp + same
 }
 
+/// deterministic sampling 1/stride that does not resonate with the nesting of the enumeration
+fn pick(idx: usize, stride: usize, offset: usize) -> bool {
+    let mut x = (idx as u64).wrapping_add(0x9e37_79b9_7f4a_7c15);
+    x = (x ^ (x >> 30)).wrapping_mul(0xbf58_476d_1ce4_e5b9);
+    x = (x ^ (x >> 27)).wrapping_mul(0x94d0_49bb_1331_11eb);
+    x ^= x >> 31;
+    (x % stride as u64) as usize == offset
+}
+
 fn named() -> Vec<Value> {
     let z = |id, ph| AV { id, ty: "Z", ph, vars: vec![] };
     let x = |id, ph| AV { id, ty: "X", ph, vars: vec![] };
@@ -287,7 +296,7 @@ pub fn record(args: &[String], seed: u64, tr: &mut Tr) -> Value {
                 if !all_plain(&a) {
                     return;
                 }
-                if idx % stride == offset && bip_size(&a) <= maxbip {
+                if pick(idx, stride, offset) && bip_size(&a) <= maxbip {
                     record_diagram(&a, tr, &mut st);
                     enumerated += 1;
                 }
